@@ -11,6 +11,7 @@ def run(prog, rep, tier):
     rep.not_decided = ("all other navigation laws of C05 (child/parent inverse, unit entry = entry, reachability by root child*, equality of a DIE "
                        "reached twice): they quantify over the DIEs of an input file and libdw's answers.")
     apply(rep, "I1", "cooked DIEs derived inside a unit keep the import chain", r_dw.i1(prog), 12)
+    apply(rep, "I1c", "import chain and iterator stack move in lockstep", r_dw.i1c(prog), 2)
     apply(rep, "I1b", "the parent takes context and import chain from the climbing cursor", r_dw.i1b(prog), 1)
     rep.notes.append("exemption: op_cooked_die::operate (reason in rules/r_dw.py I1_EXEMPT)")
     maybe_mutants("C05", rep, tier)
